@@ -190,14 +190,14 @@ def run(ctx, eng):
         f3 = m.func(q)
         ok = False
         for p in cm.normal_paths(eng.I.run(f3)):
-            bf = cm.calls_to(p, '_build_hdr_validation_flags')
+            bf = hd.flags_on_path(eng, p)
             bh = cm.calls_to(p, '_build_headers_frames')
             st = cm.process_inputs(p)
             if not bf or not bh or not st:
                 ok = False
                 break
-            ok = bf[0].args[0] == st[0][1].get('result') and \
-                bh[0].args[-1] == bf[0].get('result') and \
+            ok = bf[0][0] == st[0][1].get('result') and \
+                bh[0].args[-1] == bf[0][1] and \
                 bh[0].args[0] == ('p', 'headers')
             if not ok:
                 break
